@@ -5,10 +5,12 @@ CONSTANTS
   MaxKern = 2
   Vals = {0, 1, 2, 3}
   NBlind = 3
-  RPatterns <- Pat1
+  RPatterns <- Pat9
   Fees = {1, 2}
   Offsets <- OffsetsC
-  Splits <- SplitsSmall
-  PrevOffsets = {0, 1}
+  Splits <- SplitsC
+  PrevOffsets = {0, 1, 2}
   MaxCorrupt = 1
-INVARIANTS AllChecks
+  ValueChoices <- RepValueChoices
+  Bases <- RepBases
+INVARIANTS Emit
